@@ -1,5 +1,6 @@
 import Driver.Common
 import OidcModel.Spec.FlowObs
+import Driver.C07WireMon
 open Kv Drv
 
 namespace Drv.Flow
@@ -71,6 +72,22 @@ def monStep (ms : MonSt) (l : Line) : MonSt × Option String × Option String :=
   | op =>
     if (op == "exchange" || op == "refresh") && str l "obs" == "panic" then
       (ms, if op == "exchange" then some "panic" else none, if op == "refresh" then some "panic" else none)
+    else if op == "reregister" then
+      -- deep3-C07: a registration was replaced
+      ((FlowObs.observeX 0 ms (.registered (parseClient l "cl.0."))).1, none, none)
+    else if (op == "exchange" || op == "refresh") && has l "w.body" then
+      -- deep3-C07: a token request described as it travelled (Spec/C07Wire.lean: judged under every reading)
+      let e := FlowObs.EventX.token (Wire.parseWire l) (Wire.parseAnswer l)
+      let (ms', a0, b0) := FlowObs.observeX (int l "now0") ms e
+      let (_, a1, b1) := FlowObs.observeX (int l "now1") ms e
+      let v04 := if a0.isSome && a1.isSome then a0 else none
+      let v07 := if b0.isSome && b1.isSome then b0 else none
+      let v04 := match v04 with
+        | none =>
+          if str l "obs" == "ok" && !has l "o.handed" && has l "o.idsub" && (str l "o.idsub" != str l "o.sub" || str l "o.azp" != str l "o.client")
+          then some "tokens:id_token-mismatch" else none
+        | x => x
+      (ms', v04, v07)
     else
     match parseEvent l with
     | none => (ms, none, none)
